@@ -65,6 +65,7 @@ type ColSpec struct {
 	Card    int
 	Hostile bool     // values drawn from the hostile pool
 	Pool    []string // if set, values are drawn from this pool
+	Prefix  string   // non-hostile values are rendered as Prefix + number (long common prefixes, non-prefix-related tails)
 }
 
 type Dataset struct {
@@ -87,7 +88,8 @@ type DatasetOpts struct {
 	NoMissing     bool
 	EmptyRows     bool // sprinkle fully empty rows and a trailing block of them
 	Shapes        []ValueShape
-	TrailingEmpty int // force that many fully empty rows at the end
+	TrailingEmpty int    // force that many fully empty rows at the end
+	Crafted       string // "container-edges" | "wide-rows": a fixed, hand-built dataset instead of a generated one
 	// Concat builds a dataset whose column names are prefixes of each other and whose values complete them, so that
 	// different (column,value) pairs have equal concatenations ("a"+"bc" = "ab"+"c"): any key encoding that does not
 	// keep column and value apart confuses them.
@@ -109,7 +111,7 @@ func value(rng *rand.Rand, spec ColSpec, i, n int) string {
 			}
 			return fmt.Sprintf("h\xff%d", k)
 		}
-		return fmt.Sprintf("%d", k)
+		return spec.Prefix + fmt.Sprintf("%d", k)
 	}
 	switch spec.Shape {
 	case ShapeConstant:
@@ -143,6 +145,16 @@ func value(rng *rand.Rand, spec ColSpec, i, n int) string {
 
 // MakeDataset generates a dataset deterministically from rng.
 func MakeDataset(rng *rand.Rand, id string, o DatasetOpts) *Dataset {
+	switch o.Crafted {
+	case "container-edges":
+		d := ContainerEdges()
+		d.ID = id
+		return d
+	case "wide-rows":
+		d := WideRows(rng)
+		d.ID = id
+		return d
+	}
 	if o.MaxCols < 1 {
 		o.MaxCols = 5
 	}
@@ -184,6 +196,9 @@ func MakeDataset(rng *rand.Rand, id string, o DatasetOpts) *Dataset {
 			}
 		}
 		spec := ColSpec{Name: name, Shape: sh, Hostile: o.HostileVals && rng.Intn(2) == 0}
+		if rng.Intn(4) == 0 {
+			spec.Prefix = []string{"customer-", "2026-09-2", "aaaaaaaaaaaaaaaa", "\xff\xff\xff\xff\xff\xff\xff\xff\xff", "München-Süd/"}[rng.Intn(5)]
+		}
 		switch sh {
 		case ShapeCategorical:
 			spec.Card = 2 + rng.Intn(12)
@@ -423,4 +438,58 @@ func GroupBy(rng *rand.Rand, ds *Dataset, n int, budget int) []string {
 		out = append(out, pick)
 	}
 	return out
+}
+
+// ContainerEdges is a crafted dataset around roaring's container structure: 131072 rows (two full containers); column
+// "full" = "y" on every row of the second container only (a full container), "c4096" = "x" on exactly 4096 rows of the
+// first container and 4097 rows of the second (array/bitmap threshold), "all" on every row, "last" only on the very
+// last row, "edge" on rows 65535 and 65536.
+func ContainerEdges() *Dataset {
+	ds := &Dataset{ID: "container-edges"}
+	n := 131072
+	c1 := 0
+	for i := 0; i < n; i++ {
+		r := oracle.Row{"all": "1"}
+		if i >= 65536 {
+			r["full"] = "y"
+		}
+		if i < 65536 && i%16 == 0 {
+			r["c4096"] = "x"
+		}
+		if i >= 65536 && (i%16 == 0 || (i == 65537 && c1 == 0)) {
+			r["c4096"] = "x"
+			if i == 65537 {
+				c1++
+			}
+		}
+		if i == n-1 {
+			r["last"] = "z"
+		}
+		if i == 65535 || i == 65536 {
+			r["edge"] = "e"
+		}
+		if i%3 == 0 {
+			r["m3"] = itoa(i % 9)
+		}
+		ds.Rows = append(ds.Rows, r)
+	}
+	ds.Index()
+	return ds
+}
+
+// WideRows is a crafted dataset whose rows carry very many columns (300 columns, 60 rows).
+func WideRows(rng *rand.Rand) *Dataset {
+	ds := &Dataset{ID: "wide-rows", Unique: "uniq"}
+	for i := 0; i < 60; i++ {
+		r := oracle.Row{"uniq": fmt.Sprintf("u%07d", i)}
+		for c := 0; c < 300; c++ {
+			if rng.Intn(10) == 0 {
+				continue
+			}
+			r[fmt.Sprintf("col%03d", c)] = itoa(rng.Intn(4))
+		}
+		ds.Rows = append(ds.Rows, r)
+	}
+	ds.Index()
+	return ds
 }
